@@ -125,3 +125,22 @@ Proof.
   repeat split; try (apply negb_true_iff; assumption); auto.
   intros Hp. eapply imp_elim; eauto.
 Qed.
+
+(* C10 (a retry is recorded as a new run): a retry differs from a start in the graph construction only (ABuildGraph from the
+   recorded nodes), so its action list is `run e` as well.  `act` has no action that updates an existing history file; the
+   history actions of any run are, in this order, a prefix-closed shape around ONE AOpenHist - the file opened by this very
+   run (named by its own start time and request id) - never a second open and nothing before the open but the retention
+   clean-up. *)
+Definition hist_shapes : list (list act) :=
+  [ []; [ARemoveOld; AOpenHist]; [ARemoveOld; AOpenHist; AWriteStatus; ACloseHist];
+    [ARemoveOld; AOpenHist; AWriteStatus; AWriteFinal; ACloseHist] ].
+Lemma hist_actions_shape e : In (filter is_hist (fst (run e))) hist_shapes.
+Proof.
+  pose proof (by_sweep (fun e => existsb (acts_eqb (filter is_hist (fst (run e)))) hist_shapes) ltac:(vm_compute; reflexivity) e) as S.
+  cbv beta in S. apply existsb_exists in S. destruct S as (l & Hin & Heq). apply acts_eqb_eq in Heq. now rewrite Heq.
+Qed.
+Example retry_records_a_new_run :
+  filter is_hist (fst (run {| e_gaccept := true; e_has_pre := false; e_pre_ok := false; e_dry := false; e_probe_timeout := false;
+                              e_probe_running := false; e_open_ok := true; e_bind_ok := true |}))
+  = [ARemoveOld; AOpenHist; AWriteStatus; AWriteFinal; ACloseHist].
+Proof. reflexivity. Qed.
